@@ -9,6 +9,10 @@ method body is walked on tranp's node tree and turned into driver ops over a gro
     for ( x y ) <expr>               `for x, y in e` real: type_of of each target           model: iterates + target binding
     here <expr>                      `return expr`, expression statements, conditions       real: type_of(expr)
     bind v <type>                    a declaration whose right-hand side the model does not cover (real type taken over)
+    lam <lamctx> ( x y ) <expr>|-    a lambda inside the statement that follows: real: type_of of each parameter symbol and of the
+                                     lambda body; model: lambdaParam from where the lambda stands (annotated assignment, argument of a
+                                     function / closure / method / constructor, return, immediate call — read from the SOURCE with
+                                     CPython's ast, callees found by name) + the body typed with the parameters in scope
 
 This covers, beyond single expressions: attribute / property / method access on user classes through the single-inheritance
 chain, constructors, `self.x`, for-loops and comprehensions over list / dict / views / range / enumerate and over user classes
@@ -47,6 +51,12 @@ def annot_sexp(n: ast.expr | None, classes: set[str]) -> str:
 		def flat(x: ast.expr) -> list[str]:
 			return flat(x.left) + flat(x.right) if isinstance(x, ast.BinOp) and isinstance(x.op, ast.BitOr) else [annot_sexp(x, classes)]
 		return '( union ' + ' '.join(flat(n)) + ' )'
+	if isinstance(n, ast.Subscript) and isinstance(n.value, ast.Name) and n.value.id == 'Callable':
+		# Callable[[A, B], R] -> Callable<A, B, R>
+		if isinstance(n.slice, ast.Tuple) and len(n.slice.elts) == 2 and isinstance(n.slice.elts[0], ast.List):
+			ps = [annot_sexp(x, classes) for x in n.slice.elts[0].elts]
+			return '( cls Callable ' + ' '.join([*ps, annot_sexp(n.slice.elts[1], classes)]) + ' )'
+		raise X.Unsupported('Callable form')
 	if isinstance(n, ast.Subscript) and isinstance(n.value, ast.Name):
 		args = list(n.slice.elts) if isinstance(n.slice, ast.Tuple) else [n.slice]
 		a = [annot_sexp(x, classes) for x in args]
@@ -127,7 +137,94 @@ def real(refl: Any, node: Any) -> str:
 		return exc_enum(e)
 
 
-def body_ops(refl: Any, stmts: list[Any], ops: list[str], out: list[str], descs: list[str]) -> None:
+class Lambdas:
+	"""The lambdas of a program read from the SOURCE with CPython's ast: where each one stands (annotated assignment, call argument
+	of a function / closure / method / constructor, return value, immediate call) and what that place declares — the `lamctx` of the
+	driver op `lam`. Callees are found by name (generated names are unique; an ambiguous or unknown callee is skipped)."""
+
+	def __init__(self, src: str, classes: set[str]) -> None:
+		self.classes = classes
+		tree = ast.parse(src)
+		self.by_span: dict[tuple[int, int, int, int], tuple[ast.Lambda, ast.AST, ast.FunctionDef | None]] = {}
+		self.funcs: dict[str, list[ast.FunctionDef]] = {}
+		self.methods: dict[str, list[tuple[str, ast.FunctionDef]]] = {}
+		self.ctors: dict[str, ast.FunctionDef] = {}
+
+		def walk(n: ast.AST, parent: ast.AST | None, fn: ast.FunctionDef | None, cls: ast.ClassDef | None) -> None:
+			if isinstance(n, ast.Lambda) and parent is not None:
+				self.by_span[(n.lineno, n.col_offset, n.end_lineno or 0, n.end_col_offset or 0)] = (n, parent, fn)
+			if isinstance(n, ast.FunctionDef):
+				if cls is not None and fn is None:
+					if n.name == '__init__':
+						self.ctors[cls.name] = n
+					self.methods.setdefault(n.name, []).append((cls.name, n))
+				else:
+					self.funcs.setdefault(n.name, []).append(n)
+			for c in ast.iter_child_nodes(n):
+				walk(c, n, n if isinstance(n, ast.FunctionDef) else fn, n if isinstance(n, ast.ClassDef) else (None if isinstance(n, ast.FunctionDef) else cls))
+
+		walk(tree, None, None, None)
+
+	def signature(self, fn: ast.FunctionDef, self_ty: str | None) -> list[str]:
+		prms = fn.args.args[1:] if self_ty is not None else fn.args.args
+		ret = annot_sexp(fn.returns, self.classes)
+		return [*([self_ty] if self_ty is not None else []), *(annot_sexp(p.annotation, self.classes) for p in prms), ret]
+
+	def ctx(self, lam: ast.Lambda, parent: ast.AST, fn: ast.FunctionDef | None) -> str:
+		if isinstance(parent, ast.AnnAssign) and parent.value is lam:
+			return f'( anno {annot_sexp(parent.annotation, self.classes)} )'
+		if isinstance(parent, ast.Return):
+			if fn is None:
+				raise X.Unsupported('return outside a function')
+			return f'( ret {annot_sexp(fn.returns, self.classes)} )'
+		if isinstance(parent, ast.Call) and parent.func is lam:
+			if parent.keywords:
+				raise X.Unsupported('keywords')
+			return '( imm ' + ' '.join(X.ast_sexp(a) for a in parent.args) + ' )'
+		if isinstance(parent, ast.Call) and lam in parent.args and not parent.keywords:
+			k = parent.args.index(lam)
+			f = parent.func
+			if isinstance(f, ast.Name) and f.id in self.ctors:
+				return f'( meth {k} ' + ' '.join(self.signature(self.ctors[f.id], f'( cls {f.id} )')) + ' )'
+			if isinstance(f, ast.Name) and len(self.funcs.get(f.id, [])) == 1 and f.id not in self.classes:
+				return f'( fn {k} ' + ' '.join(self.signature(self.funcs[f.id][0], None)) + ' )'
+			if isinstance(f, ast.Attribute) and len(self.methods.get(f.attr, [])) == 1:
+				cls, m = self.methods[f.attr][0]
+				return f'( meth {k} ' + ' '.join(self.signature(m, f'( cls {cls} )')) + ' )'
+		raise X.Unsupported('lambda position')
+
+
+def lambda_ops(refl: Any, st: Any, lams: Lambdas, ops: list[str], out: list[str], descs: list[str]) -> None:
+	"""the lambdas inside one statement: parameter types (+ body type) in the env before the statement"""
+	import rogw.tranp.syntax.node.definition as defs
+	for n in st.procedural():
+		if not isinstance(n, defs.Lambda):
+			continue
+		sm = n.source_map
+		key = (sm['begin'][0], sm['begin'][1] - 1, sm['end'][0], sm['end'][1] - 1)
+		if key not in lams.by_span:
+			continue
+		lam, parent, fn = lams.by_span[key]
+		try:
+			ctx = lams.ctx(lam, parent, fn)
+		except X.Unsupported:
+			continue
+		names = [a.arg for a in lam.args.args]
+		try:
+			body = X.ast_sexp(lam.body)
+		except X.Unsupported:
+			body = '-'
+		rs = [real(refl, s) for s in n.symbols] + ([real(refl, n.expression)] if body != '-' else [])
+		if all(r.startswith('ok ') for r in rs):
+			r = 'ok ' + ' | '.join(x[3:] for x in rs)
+		else:
+			r = next(x for x in rs if not x.startswith('ok '))
+		ops.append(f"lam\t{ctx}\t( {' '.join(names)} )\t{body}")
+		out.append(r)
+		descs.append('lambda:' + ctx.split()[1] + (':body' if body != '-' else ''))
+
+
+def body_ops(refl: Any, stmts: list[Any], ops: list[str], out: list[str], descs: list[str], lams: Lambdas | None = None) -> None:
 	"""statements of one body -> driver ops and the real answers (same order)"""
 	import rogw.tranp.syntax.node.definition as defs
 
@@ -141,6 +238,8 @@ def body_ops(refl: Any, stmts: list[Any], ops: list[str], out: list[str], descs:
 		descs.append(what)
 
 	for st in stmts:
+		if lams is not None and not isinstance(st, (defs.For, defs.If, defs.Function)):
+			lambda_ops(refl, st, lams, ops, out, descs)
 		if isinstance(st, defs.MoveAssign) and len(st.receivers) == 1 and isinstance(st.receivers[0], defs.DeclLocalVar):
 			name = st.receivers[0].tokens
 			r = real(refl, st.receivers[0])
@@ -186,7 +285,7 @@ def body_ops(refl: Any, stmts: list[Any], ops: list[str], out: list[str], descs:
 			descs.append('for')
 			if not r.startswith('ok '):
 				return
-			body_ops(refl, list(st.statements), ops, out, descs)
+			body_ops(refl, list(st.statements), ops, out, descs, lams)
 		elif isinstance(st, defs.Return):
 			if not isinstance(st.return_value, defs.Empty):
 				here(st.return_value, 'return')
@@ -207,9 +306,14 @@ def program_case(sess: Any, src: str) -> tuple[dict[str, Any], list[str], list[s
 		return None
 	refl, mod = sess.module(src)
 	X.CLASS_NAMES = classes
-	X.USER_FUNCS = {n.name for n in ast.parse(src).body if isinstance(n, ast.FunctionDef)}
+	# names whose call the model does not type: functions and closures, and variables / parameters holding a callback
+	tree = ast.parse(src)
+	X.USER_FUNCS = {n.name for n in ast.walk(tree) if isinstance(n, ast.FunctionDef)} \
+		| {n.arg for n in ast.walk(tree) if isinstance(n, ast.arg) and n.annotation is not None and 'Callable' in ast.dump(n.annotation)} \
+		| {n.target.id for n in ast.walk(tree) if isinstance(n, ast.AnnAssign) and isinstance(n.target, ast.Name) and 'Callable' in ast.dump(n.annotation)}
 	try:
 		ops, out, descs = [f'classes\t{ct}'], ['ok'], ['classes']
+		lams = Lambdas(src, classes)
 		funcs: list[tuple[Any, str | None]] = []
 		for st in mod.entrypoint.statements:
 			if isinstance(st, defs.Class):
@@ -237,12 +341,12 @@ def program_case(sess: Any, src: str) -> tuple[dict[str, Any], list[str], list[s
 			ops.append('env\t( ' + ' '.join(env) + ' )')
 			out.append('ok')
 			descs.append('env')
-			body_ops(refl, list(fn.statements), ops, out, descs)
+			body_ops(refl, list(fn.statements), ops, out, descs, lams)
 	finally:
 		X.CLASS_NAMES = set()
 		X.USER_FUNCS = set()
 	hist: dict[str, int] = {}
 	for d, r in zip(descs, out):
-		k = f"{d}:{r[3:].split('<')[0] if r.startswith('ok ') else r}"
+		k = f"{d}:{'ok' if r.startswith('ok ') else r}" if d.startswith('lambda:') else f"{d}:{r[3:].split('<')[0] if r.startswith('ok ') else r}"
 		hist[k] = hist.get(k, 0) + 1
 	return {'kind': 'program', 'ops': len(ops), 'hist': hist, 'source': src[:400]}, ops, out
